@@ -207,13 +207,14 @@ int sched_once(pthread_once_t *o, void (*fn)()) {
     sched_point(SP_ONCE);
     if (s->state == 2) { if (__tsan_acquire) __tsan_acquire(o); return 0; }
     if (s->state == 1) {
-        // another thread is inside the initialiser: wait for it
+        // another thread is inside the initialiser: wait for it (blocked like on a mutex, so that every switch is a recorded choice)
         while (s->state == 1) {
             if (!G.multi) sim_abort("deadlock", "pthread_once initialiser re-entered");
-            int me = t_thr; int next = -1;
-            for (int i = 0; i < S.n; i++) if (i != me && runnable(i)) { next = i; break; }
+            int me = t_thr;
+            S.t[me].state = TS_BLOCKED; S.t[me].blocked_on = o;
+            int next = choose(me);
             if (next < 0) sim_abort("deadlock", "waiting for a pthread_once initialiser that cannot finish");
-            S.trace.push_back(next); switch_to(me, next);
+            switch_to(me, next);
         }
         if (__tsan_acquire) __tsan_acquire(o);
         return 0;
@@ -222,6 +223,7 @@ int sched_once(pthread_once_t *o, void (*fn)()) {
     fn();
     if (__tsan_release) __tsan_release(o);
     s->state = 2;
+    for (int i = 0; i < S.n; i++) if (S.t[i].state == TS_BLOCKED && S.t[i].blocked_on == o) { S.t[i].state = TS_RUNNABLE; S.t[i].blocked_on = nullptr; }
     return 0;
 }
 
